@@ -22,13 +22,13 @@ NA = {
  "C20": "The numeric tower is written in Quiver (std/num.qv); no deductive verifier for Quiver exists here. The integer builtins it leans on are covered under C12.",
 }
 LEVEL = {
- "C12": ("proof", "Every pure builtin within the Verus dialect, and the binary rope they are built on, is proved total (no panic for any argument) and equal to a mathematical reference model stated over the abstract byte view; unbounded in input size and rope shape. Deductive proof is the right level because the defects live at single representation-boundary inputs that sampling does not reach.", "DESIGN.md §4 C12"),
- "C15": ("proof", "Second sentence of the property only (workers never panic): Verus's implicit safety obligations (overflow, bounds, unwrap, division by zero, shift, reachable panic!/debug_assert!) are discharged for every function under contract, for all arguments and all states satisfying the stated well-formedness. Containment/propagation to awaiters is schedule-level and not decided.", "DESIGN.md §4 C15"),
- "C06": ("proof", "Function-level heap accounting: allocator representation invariant, retain/release exact against a ghost occurrence count, choke points and hot handlers balance counts against what they store; no premature free, no aliasing on reuse, content preserved by materialize. The global equation over all roots of all processes and all schedules is not decided.", "DESIGN.md §4 C06"),
- "C13": ("proof", "The VM's comparator only: Executor::values_equal (what pinned matches, literal matches and repeated binders execute through the Equal instruction) returns exactly the property's structural equality - equal integers, byte-equal binaries whatever their storage (constant table, heap rope of any shape), same canonical tuple shape and pairwise-equal fields, same definition and pairwise-equal captures, same process, same ref, different kinds differ - for all values of any depth; handle_equal pushes the first value exactly when all compared values are structurally equal to it, nil otherwise, and keeps the heap accounting balanced. Not decided: that the compiler gives equal shapes equal canonical ids on every path (table builder, HashMap code), uniqueness of minted refs across workers, and resource handles (the property is silent about them).", "DESIGN.md §4 C13"),
- "C16": ("proof", "VM mechanism of tail calls: executing TailCall never adds a frame, resets the frame's locals to base (+captures), changes the operand stack by exactly 0/-1 and releases what it drops; for all states. Compiler-side residue is not decided.", "DESIGN.md §4 C16"),
+ "C12": ("proof", "Every pure builtin except integer_sin/cos (f64) - 15 integer, 20 binary, 11 vector builtins - and the binary rope they are built on (incl. find_byte and the byte iterator) is proved total (no panic for any argument) and equal to a mathematical reference model stated over the abstract byte view: unbounded integers, flat byte sequences, big-endian numbers for the bit-field builtins, lane-wise arithmetic for the vector kernels, FNV-1a as a fold; unbounded in input size and rope shape. One branch of binary_shift is excluded by a documented verifier limit (function reported as partial, not counted). Deductive proof is the right level because the defects live at single representation-boundary inputs that sampling does not reach (six were found and repaired).", "DESIGN.md §4 C12"),
+ "C15": ("proof", "Second sentence of the property only (workers never panic): Verus's implicit safety obligations (overflow, bounds, unwrap, division by zero, shift, reachable panic!/unreachable!/debug_assert!) are discharged for every function under contract - all builtins, the rope, the heap choke points, 18 of 19 hot instruction handlers, the cold-path handlers, cross-heap transfer - for all arguments and all states satisfying the stated well-formedness; for the VM units every accounting obligation counts too, because a count that drifts is a debug-build worker panic. Containment/propagation to awaiters is schedule-level and not decided; handle_call, step and the select core are outside the dialect.", "DESIGN.md §4 C15"),
+ "C06": ("proof", "Function-level heap accounting: allocator representation invariant, retain/release exact against a ghost occurrence count, choke points, 18 hot handlers and 17 cold-path functions balance counts against what they store; no premature free, no live slot handed out, content preserved by materialize; cross-heap transfer proved end to end (extract_heap_data, inject_heap_data, spawn_process and the transfer theorem: what is sent reads back the same bytes, in slots not live before, counted exactly as rooted, one allocation per incoming binary). The global equation over all roots of all processes and all schedules, handle_call, step and the worker-side glue are not decided.", "DESIGN.md §4 C06"),
+ "C13": ("proof", "The VM's comparator only: Executor::values_equal (what pinned matches, literal matches and repeated binders execute through the Equal instruction) returns exactly the property's structural equality - equal integers, byte-equal binaries whatever their storage (constant table, heap rope of any shape), same canonical tuple shape and pairwise-equal fields, same definition and pairwise-equal captures, same process, same ref, different kinds differ - for all values of any depth, and that relation is proved reflexive (on valid values), symmetric and transitive; handle_equal pushes the first value exactly when all compared values are structurally equal to it, nil otherwise, and keeps the heap accounting balanced. Not decided: that the compiler / program updates give equal shapes equal canonical ids on every path (assumption A-canon; seeded change R4b lives there), uniqueness of minted refs across workers, and resource handles (the property is silent about them).", "DESIGN.md §4 C13"),
+ "C16": ("proof", "VM mechanism of tail calls: executing TailCall never adds a frame, resets the frame's locals to base (+captures), changes the operand stack by exactly 0/-1 and releases what it drops; release queues what reaches count 0 and process_pending_free empties the queue and frees every queued slot still at count 0 at the next step; for all states. Compiler-side residue (what is emitted around ^) and frame teardown in step are not decided.", "DESIGN.md §4 C16"),
 }
-NOTE = "Trusted: Verus 0.2026.09.13 + bundled Z3 4.16.0; vstd's specs of std; the assumed contracts listed by the mechanical scan in evidence.coverage.trusted_base (BigInt arithmetic = mathematical integers, derived Clone returns an equal value, Display/format is total, usize is 64 bit, dropping has no observable effect); the extractor's closed list of syntactic normalisations (DESIGN.md §2.1), each logged and undone by the erasure self-check on every run."
+NOTE = "Trusted: Verus 0.2026.09.13 + bundled Z3 4.16.0; vstd's specs of std; the assumed contracts listed by the mechanical scan in evidence.coverage.trusted_base (BigInt arithmetic = mathematical integers, derived Clone returns an equal value, Display/format is total, usize is 64 bit, dropping has no observable effect, a handful of std functions and iterator pieces vstd does not specify, the process table as an abstract map); the extractor's closed list of syntactic normalisations N1-N16 and ghost-only splice anchors S1-S10 (DESIGN.md §2.1), each logged and undone by the erasure self-check on every run. Bounded stand-ins on the real code (boundary differential, transfer differential, program corpus) run only when the deductive check is undecided or in the thorough tier, are labelled bounded and never counted as proved."
 TECH = "contract-based deductive verification (Verus/Z3) of functions re-extracted mechanically from /repo on every run"
 
 def main():
